@@ -121,7 +121,7 @@ class LoopSpec:
 import os as _os
 _TRACE = bool(_os.environ.get("PYVC_TRACE"))
 QUICK_TIMEOUT_MS = 20000
-FEAS_TIMEOUT_MS = 3000
+FEAS_TIMEOUT_MS = 250
 
 
 class Engine:
@@ -426,6 +426,7 @@ class Engine:
             if t2.eq(t):
                 return SSeq(h2, "bytes", "int")
         self.assume(SBool(z3.Length(h) == 32))
+        self.assume(SBool(specfn.unkeccak(h) == t))                # A-HASH: the hash determines its pre-image
         for (t2, h2) in self.keccak_terms:
             self.assume(SBool(z3.Implies(h == h2, t == t2)))       # A-HASH, instantiated pairwise
         self.keccak_terms.append((t, h))
@@ -1251,6 +1252,8 @@ class Engine:
     def dict_store(self, d, key, val):
         self.dict_type(d, key, val)
         kt = self.dict_key(d, key)
+        if getattr(d, "hooks", None) is not None:
+            d.hooks.on_write(self, d, kt, self.dict_enc(d, val))
         d.has = z3.Store(d.has, kt, z3.BoolVal(True))
         d.val = z3.Store(d.val, kt, self.dict_enc(d, val))
         d.writes += 1
@@ -1266,6 +1269,8 @@ class Engine:
             self.raise_exc(KeyError, key)
         kt = self.dict_key(d, key)
         if self.decide(mk_bool(z3.Select(d.has, kt))):
+            if getattr(d, "hooks", None) is not None:
+                d.hooks.on_read(self, d, kt, z3.Select(d.val, kt))
             return self.dict_dec(d, z3.Select(d.val, kt))
         if d.default is not None:
             self.check_mut(d)
